@@ -377,6 +377,12 @@ def main(argv=None):
         print("HARNESS-ERROR loading check module:\n%s" % traceback.format_exc())
         return 2
     subs = {s.name: s for s in mod.SUBCHECKS}
+    if hasattr(mod, "selftest") and not args.replay:
+        try:
+            mod.selftest()
+        except Exception:
+            print("HARNESS-ERROR oracle self-test failed:\n%s" % traceback.format_exc())
+            return 2
 
     workroot = os.environ.get("VERIF_WORK_DIR", os.path.join(HERE, ".work"))
     workdir = os.path.join(workroot, "%s-%d" % (pid, os.getpid()))
